@@ -12,20 +12,6 @@
 From Coupe Require Import Lib.Prelude Model.NumPart.
 Open Scope Z_scope.
 
-(* `Iterator::min_by` is `reduce(|x, y| match cmp(x, y) { Greater => y, _ => x })`;
-   `partial_cmp x y` is Less iff x < y, otherwise Greater: the accumulator is
-   kept only when it is strictly smaller. *)
-Fixpoint argmin_last_aux (bi : nat) (bv : Z) (i : nat) (l : list Z) : nat :=
-  match l with
-  | [] => bi
-  | y :: t => if bv <? y then argmin_last_aux bi bv (S i) t else argmin_last_aux i y (S i) t
-  end.
-Definition argmin_last (l : list Z) : option nat :=
-  match l with
-  | [] => None
-  | x :: t => Some (argmin_last_aux 0 x 1 t)
-  end.
-
 (* the scan over the weights in descending order.  Panic 1: `unwrap` of
    min_by on an empty vector; Panic 2: index out of bounds. *)
 Fixpoint greedy_loop (its : list item) (pw : list Z) (p : list N) : res (list N * list Z) :=
@@ -59,17 +45,7 @@ Inductive lpt_run : list Z -> list Z -> list Z -> Prop :=
     lpt_run ws (set_nth L i (li + w)) L' ->
     lpt_run (w :: ws) L L'.
 
-(* a canonical run (first lightest part), used by the checker *)
-Fixpoint argmin_first_aux (bi : nat) (bv : Z) (i : nat) (l : list Z) : nat :=
-  match l with
-  | [] => bi
-  | y :: t => if y <? bv then argmin_first_aux i y (S i) t else argmin_first_aux bi bv (S i) t
-  end.
-Definition argmin_first (l : list Z) : nat :=
-  match l with
-  | [] => O
-  | x :: t => argmin_first_aux 0 x 1 t
-  end.
+(* a canonical run (first lightest part: NumPart.argmin_first), used by the checker *)
 Fixpoint lpt_first (ws : list Z) (L : list Z) : list Z :=
   match ws with
   | [] => L
